@@ -361,7 +361,8 @@ class TaggedSeries(object):
   @classmethod
   def parse(cls, path):
     # if path is in openmetrics format: metric{tag="value",...}
-    if path[-2:] == '"}' and '{' in path:
+    # (a ';' before the '{' means a carbon path whose tag value merely ends in '"}')
+    if path[-2:] == '"}' and '{' in path and ';' not in path.split('{', 1)[0]:
       return cls.parse_openmetrics(path)
 
     # path is a carbon path with optional tags: metric;tag=value;...
